@@ -101,6 +101,61 @@ def run(ctx):
                "`indexes.index(key).is_some()` => Err dominates the undo push and indexes.insert" if (g_push and g_ins) else
                "creating an existing index is no longer rejected before the undo push / indexes.insert", b.where)
 
+    # R11e: a replacement un-indexes the PREVIOUS value and indexes the NEW one (argument provenance)
+    n_rep = 0
+    for fb in [fa.body(DB + "insert_or_replace_key_value"), fa.body(DB + "rollback")]:
+        if fb is None:
+            continue
+        for i, t in cfg.calls(fb):
+            if common.norm(cfg.callee(t) or "") != KV + "insert_or_replace":
+                continue
+            n_rep += 1
+            old = cfg.derived_locals(fb, [t["d"][0]], through=lambda n: cfg.is_transparent(n) or (n or "").endswith(
+                ("::expect", "::unwrap", "Option::expect", "Option::unwrap")))
+            new_o = cfg.op_origin(fb, t["a"][3]) if len(t["a"]) > 3 else None
+            after = [(j, tj) for j, tj in cfg.calls(fb) if common.norm(cfg.callee(tj) or "").startswith(MM) and
+                     cfg.find_path(fb, [0], [j], avoid=[i]) is None]
+            rem = [(j, tj) for j, tj in after if common.norm(cfg.callee(tj)).endswith("::remove_value")]
+            ins = [(j, tj) for j, tj in after if common.norm(cfg.callee(tj)).endswith("::insert")]
+            # only the calls on the found-branch (both present); the not-found branch only inserts
+            ok_rem = bool(rem) and all((cfg.op_origin(fb, tj["a"][2]) or (None,))[0] in old for j, tj in rem)
+            ins_found = [(j, tj) for j, tj in ins if any(cfg.find_path(fb, [r], [j], leave_start=True) is not None for r, _ in rem)]
+            ok_ins = bool(ins_found) and new_o is not None and all(
+                (cfg.op_origin(fb, tj["a"][2]) or (None,))[0] == new_o[0] for j, tj in ins_found)
+            name = common.norm(fb.npath).split("::")[-1]
+            ctx.ob("R11e", "%s:replace-provenance" % name, ok_rem and ok_ins,
+                   "index.remove_value takes the value returned by insert_or_replace (previous), index.insert the value passed to it (new)"
+                   if (ok_rem and ok_ins) else
+                   "in `%s` the index is updated with the wrong value on replacement (remove_value uses the previous value: %s; "
+                   "insert uses the new value: %s): a stale index entry survives" % (name, ok_rem, ok_ins), fb.loc(i))
+    ctx.floor("R11e", "key-value replacement sites", n_rep, 2)
+    # R11f: the back-fill decides node vs edge id by asking the graph, not by the (always positive) slot number
+    b2 = fa.body(DB + "insert_index")
+    if b2:
+        negs = {s["l"][0] for bi, s in cfg.assigns(b2) if s["r"]["k"] == "un" and s["r"]["op"] == "Neg" and len(s["l"]) == 1}
+        neg_aggs = []
+        for bi, s in cfg.assigns(b2):
+            r = s["r"]
+            if r["k"] == "agg" and r.get("adt", "").endswith("DbId"):
+                o = cfg.op_origin(b2, r["ops"][0]) if r["ops"] else None
+                if o and (o[0] in negs or any(d[0] == "assign" and d[2]["k"] == "cast" and
+                                              (cfg.op_origin(b2, d[2]["o"]) or (None,))[0] in negs
+                                              for d in cfg.defs(b2).get(o[0], []))):
+                    neg_aggs.append(bi)
+        lookups = [(i, t) for i, t in cfg.calls(b2) if common.norm(cfg.callee(t) or "") in (
+            "agdb::graph::GraphImpl::node", "agdb::graph::GraphImpl::edge")]
+        sws = []
+        for i, t in lookups:
+            sws += cfg.bool_switches(b2, cfg.derived_locals(b2, [t["d"][0]], through=lambda n: cfg.is_transparent(n) or (
+                n or "").endswith(("::is_some", "::is_none"))))
+        ok = bool(neg_aggs and sws) and all(any(
+            cfg.find_path(b2, [0], [na], removed_edges=[e]) is None for sw in sws for e in (sw["true_edge"], sw["false_edge"]))
+            for na in neg_aggs)
+        ctx.ob("R11f", "insert_index:id-sign-from-graph", ok,
+               "the negative (edge) id is chosen by a graph membership lookup" if ok else
+               "insert_index no longer asks the graph whether a slot is a node or an edge: existing edges would be "
+               "indexed under positive ids", b2.where)
+
     b = ctx.anchor("R11d", DB + "remove_index")
     if b:
         pv = pushed_variants(b)
